@@ -132,12 +132,19 @@ def _try_many(cands, want, workers):
     return None
 
 
+MIN_DEADLINE = [None]
+
+
+def expired():
+    return MIN_DEADLINE[0] is not None and time.time() > MIN_DEADLINE[0]
+
+
 def ddmin_list(spec, get, put, want, workers, budget):
     """Classic ddmin over a list inside the spec. Returns (spec, runs_used)."""
     items = get(spec)
     n = 2
     used = 0
-    while len(items) >= 1 and used < budget:
+    while len(items) >= 1 and used < budget and not expired():
         chunk = max(1, len(items) // n)
         cands = []
         for i in range(0, len(items), chunk):
@@ -167,13 +174,15 @@ def minimise(spec, want_class, workers=16, budget=1500, log=None):
             log(m)
     used = 0
     spec = copy.deepcopy(spec)
+    # wall-clock budget: what has been shrunk by then is what gets reported
+    MIN_DEADLINE[0] = time.time() + float(os.environ.get("VERIF_MINIMISE_SECS", "420"))
     # 0. confirm
     o = run_spec(spec)
     if not same_failure(o, want_class):
         return spec, o, False
     # 1. drop whole mutator programs (keep the thread so partitioning stays stable, then try removing)
     for i in reversed(range(len(spec["programs"]))):
-        if len(spec["programs"]) > 1:
+        if len(spec["programs"]) > 1 and not expired():
             c = copy.deepcopy(spec)
             del c["programs"][i]
             used += 1
@@ -202,7 +211,7 @@ def minimise(spec, want_class, workers=16, budget=1500, log=None):
     ]
     for path, val in simpl:
         a, b = path.split(".")
-        if spec[a].get(b) == val:
+        if spec[a].get(b) == val or expired():
             continue
         c = copy.deepcopy(spec)
         c[a][b] = val
@@ -213,7 +222,7 @@ def minimise(spec, want_class, workers=16, budget=1500, log=None):
     # 4. shrink sizes
     for i, prog in enumerate(spec["programs"]):
         for j, op in enumerate(prog):
-            if op.get("op") in ("Alloc", "AllocOpt") and op["size"] > 64:
+            if op.get("op") in ("Alloc", "AllocOpt") and op["size"] > 64 and not expired():
                 for new in (32, 64, 256, op["size"] // 2):
                     if new >= op["size"]:
                         continue
